@@ -51,7 +51,7 @@ FLOORS = {'*': {**{f'{k}:{s}': 5 for k in ('oas31', 'oas30') for s in STACKS},
                 **{f'openrpc:{s}': 5 for s in ('default', 'pydantic', 'docstring')},
                 'shared-errors-list': 10, 'prefix-on-first-only': 5, 'prefix-on-later-only': 5, 'worker:oas31': 20, 'worker:oas30': 20,
                 'worker:openrpc': 20, 'isolation-comparisons': 100, 'repeat-generations': 100, 'view-method': 10,
-                'status-map-errors': 10, 'fingerprints-compared': 100, 'reused-spec-comparisons': 50, 'same-name-on-two-endpoints': 10}}
+                'status-map-errors': 10, 'fingerprints-compared': 100, 'reused-spec-comparisons': 50, 'bystander-specs': 50, 'same-name-on-two-endpoints': 10}}
 
 PENDING = []          # documents for the meta-schema worker: (key, kind, doc, case)
 
@@ -125,7 +125,7 @@ def run_case(ctx, kind, stack, methods, prefixes, status_map, repeats):
     fam = f'{kind}:{stack}'
     ctx.hit(fam)
     wit = dict(kind=kind, extractors=stack, methods=methods, endpoint_prefixes=prefixes, status_map=status_map)
-    shared = {'errors_list': [specworld.SpecErrA, specworld.SpecErrB]}
+    shared = {'errors_list': [specworld.SpecErrA, specworld.SpecErrB], 'singular_extractor_kw': repeats % 2 == 0}
     try:
         spec, mobjs, funcs, mm = generate(kind, stack, methods, prefixes, shared, status_map)
     except Exception as e:
@@ -148,6 +148,24 @@ def run_case(ctx, kind, stack, methods, prefixes, status_map, repeats):
     before = fingerprint(watched)
     docs = []
     for r in range(repeats):
+        if r == 1:
+            # a bystander: another specification object with another extractor is built and used in between; it must not
+            # influence the one under test (nor be influenced by it)
+            try:
+                other_stack = 'docstring' if 'pydantic' in stack else 'pydantic'
+                by_shared = {'errors_list': [specworld.SpecErrC], 'singular_extractor_kw': True}
+                bystander = specworld.make_spec(kind, other_stack, by_shared, False)
+                bm, _ = specworld.build_methods([{'name': 'bystander', 'params': [['q', 'PK', 'Other', False]], 'ret': 'Inner', 'ctx': None}], by_shared)
+                bdoc = json.loads(json.dumps(bystander.schema(path='/other', methods_map={'': bm}), cls=specs.JSONEncoder))
+                fresh_b = specworld.make_spec(kind, other_stack, {'errors_list': [specworld.SpecErrC], 'singular_extractor_kw': False}, False)
+                fdoc = json.loads(json.dumps(fresh_b.schema(path='/other', methods_map={'': bm}), cls=specs.JSONEncoder))
+                ctx.hit('bystander-specs')
+                if not typed_eq(bdoc, fdoc):
+                    ctx.violation('specification-object-influenced-by-another-one', fam, cls, difference=_first_diff(bdoc, fdoc), **wit)
+                    return
+            except Exception as e:
+                ctx.violation(f'schema-raises:{type(e).__name__}:{kind}:bystander', fam, cls, exception=e, **wit)
+                return
         try:
             d = spec.schema(path='/api', methods_map=mm)
         except Exception as e:
